@@ -350,6 +350,19 @@ func genC11(g *G) {
 			g.Emit("sset", strings.Join(ops, " "))
 			g.Emit("mset", strings.Join(ops, " "))
 		}
+		if size <= 300 {
+			// two large sets that differ in exactly one element, at every sorted position in turn
+			ops := []string{"n"}
+			for v := 0; v < size; v++ {
+				ops = append(ops, "a0,"+I(2*v))
+			}
+			ops = append(ops, "k0", "e0,1", "e1,0")
+			for pos := 0; pos < size; pos++ {
+				ops = append(ops, "d1,"+I(2*pos), "a1,"+I(2*pos+1), "e0,1", "e1,0", "d1,"+I(2*pos+1), "a1,"+I(2*pos), "e0,1")
+			}
+			g.Emit("sset", strings.Join(ops, " "))
+			g.Emit("mset", strings.Join(ops, " "))
+		}
 		var ops []string
 		ops = append(ops, "n")
 		for v := 0; v < size; v++ {
